@@ -209,6 +209,7 @@ pub struct Model<'a> {
     stdin_pos: usize,
     stdin_known: bool,
     random_names: std::collections::BTreeSet<String>,
+    static_frames: HashMap<usize, Frame>,
     pub report: ModelReport,
     step_cap: u64,
     pending_errors_used: HashMap<(StmtId, u32), usize>,
@@ -284,6 +285,7 @@ impl<'a> Model<'a> {
             stdin_pos: 0,
             stdin_known: true,
             random_names: Default::default(),
+            static_frames: HashMap::new(),
             report: ModelReport::default(),
             step_cap: STEP_CAP,
             pending_errors_used: HashMap::new(),
@@ -1298,10 +1300,14 @@ impl<'a> Model<'a> {
             return Err(Stop::Early("model recursion cap".into()));
         }
         let p: &'a Proc = &self.sc.procs[idx];
-        let mut f = Frame {
-            proc_idx: Some(idx),
-            ..Default::default()
+        let mut f = match (p.is_static, self.static_frames.remove(&idx)) {
+            (true, Some(saved)) => saved,
+            _ => Frame {
+                proc_idx: Some(idx),
+                ..Default::default()
+            },
         };
+        f.gosub_depth = 0;
         for (n, v) in p.params.iter().zip(args.iter()) {
             f.ints.insert(n.to_uppercase(), *v);
         }
@@ -1318,6 +1324,9 @@ impl<'a> Model<'a> {
         }
         let flow = self.exec_list(&p.body, 0, true);
         let frame = self.frames.pop().unwrap();
+        if p.is_static {
+            self.static_frames.insert(idx, frame.clone());
+        }
         self.callsites.pop();
         self.row_override = saved_override;
         let flow = flow?;
@@ -1434,6 +1443,7 @@ impl<'a> Model<'a> {
                 Val::I(if op.eval(x, y) { -1 } else { 0 })
             }
             Expr::Paren(x) => self.eval(x, site)?,
+            Expr::LenOf(t) => Val::I(t.len() as i64),
             Expr::Err => Val::I(self.err),
             Expr::Eof(h) => {
                 let hd = match self.handles.get(h) {
